@@ -24,6 +24,12 @@ def gen(ctx):
         names += ["x" + ch, "track" + ch, ch, ch + "x", "command_list" + ch, "find" + ch + "y"]
     for n in names:
         cases.append("cmd_build " + hexs(n))
+    # long commands inside lists (a fast path for commands beyond some size must still end each with its line feed)
+    for ln in (1459, 1460, 4090, 4091, 4092, 4093, 4094, 4095, 4096, 4097, 5000, 8192, 20000):
+        long_cmd = ",".join([hexs("add"), hexs("x" * ln)])
+        short = ",".join([hexs("status")])
+        for shape in ([long_cmd, short], [short, long_cmd], [short, long_cmd, short], [long_cmd, long_cmd]):
+            cases.append(" ".join(["cmd_list", rng.choice(["add", "command", "extend"])] + shape))
     # a line feed at every position of a long argument, after every kind of neighbour (a word-at-a-time scan must not miss
     # one), through the string renderers (quoted) and the raw renderer (unquoted)
     for pos in list(range(0, 40)) + [63, 64, 65, 127, 128, 255, 256, 257, 300, 1000]:
@@ -55,9 +61,11 @@ def gen(ctx):
                 specs.append(f"{rng.choice(['s', 'S', 'c', 'cb'])}:{hexs(rng.choice(lfs))}")
             elif r < 0.55:
                 specs.append(f"{rng.choice(['s', 'S', 'c', 'cb'])}:{hexs(rng.choice(oks))}")
-            elif r < 0.75:
+            elif r < 0.70:
                 raw = bytes(rng.choice([10, 10, 32, 0, 255, 65, 34, 13]) for _ in range(rng.choice([0, 1, 2, 3, 5])))
                 specs.append("r:" + hexs(raw))
+            elif r < 0.75:
+                specs.append("t:" + hexs(rng.choice(["Artist", "x-y", "Artist\nkill", "\n", "a\x00b", "mood\ncommand_list_end", "ok", ""])))
             elif r < 0.80:
                 specs.append("b:" + rng.choice("01"))
             elif r < 0.92:
